@@ -63,6 +63,31 @@ def generate(tier, seed, ctx):
             if entry == 'builder' and root.type_ != -1:
                 entry = 'slice'
             out.append(one(root, sheap, roots[0], skeys, bk.OPTION_SETS[k % 6], form, entry, note))
+    # the same LIVE cell objects serialised under several roots one after another (a cell's bytes in a bag hold the
+    # indexes of its children IN THAT BAG: nothing about an earlier bag may be reused)
+    from pytoniq_core.boc import Builder
+
+    def mk(bits, refs):
+        b = Builder().store_uint(bits, 9)
+        for r in refs:
+            b.store_ref(r)
+        return b.end_cell()
+    for pool in range(6 if tier == 'quick' else 120):
+        y, z, q = mk(rng.getrandbits(9), []), mk(rng.getrandbits(9), []), mk(rng.getrandbits(9), [])
+        x = mk(rng.getrandbits(9), [y, z])
+        p = mk(rng.getrandbits(9), [y])
+        cells = [y, z, q, x, p]
+        for _ in range(rng.randint(0, 3)):
+            cells.append(mk(rng.getrandbits(9), rng.sample(cells, rng.randint(1, 3))))
+        roots_ = [mk(1, [p, x]), mk(2, [q, x]), mk(3, [x, p]), mk(4, [x]), mk(5, [q, p, x])]
+        roots_ += [mk(6 + j, rng.sample(cells, rng.randint(2, 4))) for j in range(4)]
+        rng.shuffle(roots_)
+        for root in roots_:
+            sheap, rts, _ = ck.project([root])
+            sheap, rts = ck.dedup(sheap, rts)
+            skeys, _ = bk.keys_of_heap(sheap)
+            k += 1
+            out.append(one(root, sheap, rts[0], skeys, bk.OPTION_SETS[k % 6], 'bytes', 'cell', 'shared_live_objects'))
     return out
 
 
